@@ -562,10 +562,12 @@ class BooleanOperator(EvaluationNode):
         raise InvalidCodePath
 
     def evaluate(self, node: NodeBase, context: EvaluationContext) -> Any:
-        return self.operator(
-            self.left.evaluate(node=node, context=context),
-            self.right.evaluate(node=node, context=context),
-        )
+        left = self.left.evaluate(node=node, context=context)
+        right = self.right.evaluate(node=node, context=context)
+        if self.operator in (operator.and_, operator.or_):
+            # these are logical, not bitwise operators
+            left, right = bool(left), bool(right)
+        return self.operator(left, right)
 
     def _is_unambiguously_locatable(self) -> bool:
         if self.operator is operator.and_:
